@@ -91,7 +91,15 @@ type AssertAt struct {
 // Guard: field Field of struct type Type may only be accessed while the mutex field Mutex of the same object is held.
 type Guard struct{ Type, Field, Mutex string }
 
+// GlobalFact: an assumed fact about package-level variables that are initialised by a call at package
+// initialisation and never written afterwards (read off the initialiser; listed as an assumption).
+type GlobalFact struct {
+	Pkg string
+	C   Clause
+}
+
 type SpecLib struct {
+	GlobalFacts []GlobalFact
 	Guards    []Guard
 	Funs      map[string]*SpecFun
 	Order     []string
@@ -288,6 +296,18 @@ func (lib *SpecLib) loadFile(path, prefix string) error {
 				return bad(fmt.Errorf("'trigger' outside lemma"))
 			}
 			curLemma.Triggers = append(curLemma.Triggers, rest)
+		case "globalfact":
+			// globalfact <pkg>: <expr over that package's globals>
+			i := strings.Index(rest, ":")
+			if i < 0 {
+				return bad(fmt.Errorf("globalfact <pkg>: <expr>"))
+			}
+			c, err := clause(strings.TrimSpace(rest[i+1:]))
+			if err != nil {
+				return bad(err)
+			}
+			lib.GlobalFacts = append(lib.GlobalFacts, GlobalFact{Pkg: strings.TrimSpace(rest[:i]), C: c})
+			cur, curLemma = nil, nil
 		case "guard":
 			// guard <pkg.Type>.<field> by <mutexfield>
 			fs := strings.Fields(rest)
